@@ -22,7 +22,7 @@ RULE = ('complete integer grids {0,1}^12 / {0,1,2}^8 / {0..6}^4 (x dilations 2, 
 ASSUME = ['per-variable degree bounds are read off the code (sums and products only) and tested by the dilated grids',
           'small-integer float64 arithmetic is exact (all intermediate values < 2^53)',
           '3-vector product: operands and product have scalar part >= 0.1',
-          'exp/log tolerance 1e-6 relative to max(1,|q|)']
+          'exp/log tolerance 1e-6 relative to max(1,|q|); exp(log(q)) = q to 1e-6 relative to |q| itself']
 ANCHORS = [('spatialmath.base.quaternions', n) for n in ('qqmul', 'conj', 'qnorm', 'inner', 'qpow', 'matrix', 'vvmul', 'dot', 'dotb', 'pure', 'q2v', 'v2q')] + \
           [('spatialmath.quaternion', 'Quaternion.' + n) for n in ('__mul__', '__add__', '__sub__', '__pow__', 'conj', 'norm', 'inner', 'log', 'exp')] + \
           [('spatialmath.DualQuaternion', 'DualQuaternion.' + n) for n in ('norm', 'conj', '__add__', '__sub__', '__mul__', 'matrix')]
@@ -245,6 +245,8 @@ def numeric(ctx):
     # exp / log
     Q = sm.Quaternion
     vmag = [('1e%d' % k, 10.0 ** k) for k in ((-6, -3, -1, 0, 1, 3, 6) if tier == 'quick' else range(-6, 7))]
+    # round 13: vector parts below 1e-6 (non-zero, far above the 100 eps at which a direction stops being defined) beside scalar parts of the same order
+    vmag = [('1e-9', 1e-9), ('3e-7', 3e-7)] + vmag
     for (vn, vm), sp, (di, dv) in itertools.product(vmag, (-2.0, -1e-3, -3e-6, 0.0, 1e-9, 4e-6, 2e-5, 0.5, 3.0, 1e3), enumerate(alph.G_VEC3[:4])):
         q = np.r_[sp, vm * alph.unit(dv)]
         cid = 'C12/explog/v=%s/s=%g/dir=%d' % (vn, sp, di)
@@ -256,7 +258,8 @@ def numeric(ctx):
         ok, r = call(lambda: Q(q.copy()).log().exp().vec)
         if not ok:
             ctx.fail(cid, 'Quaternion.log', 'raises:' + type(r).__name__, dict(P, law='exp(log)'), 'exp(log(q)) raised %r' % (r,))
-        elif not np.all(np.isfinite(r)) or np.abs(r - q).max() > 1e-6 * sc:
+        elif not np.all(np.isfinite(r)) or np.abs(r - q).max() > 1e-6 * float(np.linalg.norm(q)):
+            # 1e-6 relative to |q| itself (round 13): a quaternion whose components are all of order 1e-6 is reproduced as well as one of order 1
             ctx.fail(cid, 'Quaternion.log', 'mismatch', dict(P, law='exp(log)'), 'exp(log(q)) differs from q by %.3g (q=%s)' % (np.abs(r - q).max(), q.tolist()))
         # the same object used again after exp() / log(): its value must still be q and the answers the same
         qo = Q(q.copy())
